@@ -210,6 +210,11 @@ def matrix_cases(tier: str) -> list:
             for fmt in fmts[:2]:
                 # ... after a save_result that failed half-way (unknown parameter format inside the folder plugin) in the same process
                 out.append({"fn": fn, "format": fmt, "state": state, "allow_overwrite": False, "mode": "explicit", "after_failed_save_result": True})
+    for fn in SAVE_FUNCS:
+        for fmt in [f for f in registered_formats(fn) if not f.startswith("verif")]:
+            for mode in ("explicit", "inferred"):
+                # r6c18B: the object was saved to this very file before (its source_path, where it has one, names the target)
+                out.append({"fn": fn, "format": fmt, "state": "file", "allow_overwrite": False, "mode": mode, "saved_before": True})
     return out
 
 
@@ -288,6 +293,11 @@ def prop_matrix(case):
                                 saving_options=SavingOptions(parameter_format="verif_no_such_format"))
             except Exception:  # noqa: BLE001  (expected: unknown parameter format)
                 pass
+        if case.get("saved_before"):
+            try:
+                getattr(gio, fn)(payload, target, fmt, allow_overwrite=True)
+            except Exception:  # noqa: BLE001  (formats that cannot write this object: the target still exists)
+                pass
         known = fmt != UNKNOWN_FORMAT
         supported = known and fmt != HALF_FORMAT and _supported(fn, fmt)
         folder_target = fn == "save_result" and target.suffix not in (".yml", ".yaml")
@@ -306,7 +316,7 @@ def prop_matrix(case):
         except Exception as e:  # noqa: BLE001
             raised = e
         after = snapshot(work)
-        tags = [fn, f"format={fmt}", state, "overwrite" if allow else "protect", mode] + (["folder_spelling" if fn == "save_result" else "target_without_extension"] if case.get("spelling") == "bare" else []) + ([f"flag_{case['flag']}"] if case.get("flag") else []) + (["after_a_failed_save_result"] if case.get("after_failed_save_result") else [])
+        tags = [fn, f"format={fmt}", state, "overwrite" if allow else "protect", mode] + (["folder_spelling" if fn == "save_result" else "target_without_extension"] if case.get("spelling") == "bare" else []) + ([f"flag_{case['flag']}"] if case.get("flag") else []) + (["after_a_failed_save_result"] if case.get("after_failed_save_result") else []) + (["saved_there_before"] if case.get("saved_before") else [])
         where = f"{fn}(format={fmt!r}, {mode}) target={state} allow_overwrite={allow}"
         if protected and not allow:
             check(isinstance(raised, FileExistsError), "matrix.refuses",
@@ -338,7 +348,7 @@ def prop_matrix(case):
 # ------------------------------------------------------------------------------------------
 # project machines
 
-RESULT_NAMES = ["m", "m1", "m_run_x", "m_run_1", "mm"]
+RESULT_NAMES = ["m", "m1", "m_run_x", "m_run_1", "mm", "m.v2", "m[1]"]  # the last two: D44 (dot, glob characters)
 MAX_HANDLES = 3  # live Project objects on one project folder
 DATASETS = ["dataset_1", "d2"]
 FIT_GENERATOR = ["decay_parallel", {"nr_compartments": 1, "irf": False}]
